@@ -109,7 +109,7 @@ SEAM_NOTE = ("Seam: Verus proves generic container code against the trait-level 
              "Kani discharges those clauses on the real impls of each shipped k-mer type (families k_get, k_set_slice_mut, "
              "k_rc, k_extend_right, k_empty, k_from_bytes, k_len). A downstream impl of Kmer is not covered.")
 VERUS_TRUST = [
-    "Verus 0.2026.09.13 / Z3 are sound; the extractor (verus/extract.py) copies function bodies verbatim and applies only rewrite rules R1-R13 (listed in its header, counted per function in coverage.extraction)",
+    "Verus 0.2026.09.13 / Z3 are sound; the extractor (verus/extract.py) copies function bodies verbatim and applies only rewrite rules R1-R15 (listed in its header, counted per function in coverage.extraction)",
     "vstd specifications of Vec, Option, Range, String::push/new; assumed: std::cmp::min, String::with_capacity (prelude.rs)",
     "strings are shorter than 2^62 bases (max_len); usize is 64 bit",
 ]
